@@ -670,6 +670,80 @@ def direction_b(chk, lib, tmp, nrec):
         chk.extra["corrupted_record_selftest"] = "skipped: fewer than three records accepted by the specification"
 
 
+def lattice_record(rng, rid):
+    """Scale: 7 x 7 x 7 sites of one species (mass 9/4), cut-off 3.7 lattice spacings: 202 neighbours per particle, 69 286
+    directed interacting pairs (beyond 2^16: batched / chunked assembly paths).  The order of the particles is shuffled."""
+    import itertools
+    n, a = [7, 7, 7], 10
+    sites = [[a * x for x in s_] for s_ in itertools.product(*[range(k) for k in n])]
+    rng.shuffle(sites)
+    model = rng.choice(["lennard_jones", "inverse_power_law"])
+    return {"dim": 3, "S": 10, "H": [[(n[i] * a if i == j else 0) for j in range(3)] for i in range(3)], "ppp": [1, 1, 1],
+            "pos": sites, "typ": [1] * len(sites), "mroot": [[3, 2]], "morder": [1], "model": model, "shift": True,
+            "eps": [[[13, 10]]], "sigma": [[[11, 10]]], "rc": [[[37, 10]]], "n": [10, 1], "A": [2, 3], "alpha": [2, 1],
+            "lat": {"n": n, "a": a}, "id": rid}
+
+
+def check_lattice(chk, lib, tmp, rng):
+    """One lattice record at scale, decided from the row of particle 1 (Hessian!GeoOne, LatticeLemma): TraceHessian prints the
+    table index difference -> block terms; the blocks are placed here by index arithmetic and compared entry by entry."""
+    rec = lattice_record(rng, 900001)
+    try:
+        res = run_code(lib, rec, tmp, tag="lat", saveevecs=False)
+    except Exception as e:
+        chk.violation(f"raises:{type(e).__name__}", dict({k: v for k, v in rec.items() if k != "pos"}, error=str(e), direction="B-lattice"))
+        return
+    Hm = np.asarray(res["matrix"], dtype=float)
+    finite = bool(np.all(np.isfinite(Hm)))
+    t = dict(rec)
+    t.update(shift=1, pattern=[], finite=1 if finite else 0,
+             symmetric=1 if (finite and np.max(np.abs(Hm - Hm.T), initial=0.0) <= 1e-9 + 1e-12 * np.max(np.abs(Hm), initial=0.0)) else 0)
+    r, rejects = common.validate_trace_all("TraceHessian", [t], timeout=1800, max_rejects=2)
+    chk.add_tlc(r, "TraceHessian (lattice record)")
+    small = {k: v for k, v in rec.items() if k != "pos"}
+    if rejects:
+        if rejects[0][1].startswith("BadRecord"):
+            raise common.MachineryError("the lattice record is rejected as malformed")
+        chk.violation("trace:" + rejects[0][1], dict(small, direction="B-lattice"))
+        return
+    case = next((c for c in r.cases if c.get("m") in ("TraceLattice", "TraceTie")), None)
+    if case is None or case["m"] != "TraceLattice":
+        raise common.MachineryError("TraceHessian printed no lattice expectation")
+    env = eval_defs(case["defs"])
+    dim, n, a = rec["dim"], rec["lat"]["n"], rec["lat"]["a"]
+    N = len(rec["pos"])
+    m = (case["mroot"][0] / case["mroot"][1]) ** 2
+    idx = [tuple(x // a for x in p_) for p_ in rec["pos"]]
+    who = {u: i for i, u in enumerate(idx)}
+    blocks = []
+    for row in case["table"]:
+        K = np.zeros((dim, dim))
+        for a_ in range(dim):
+            for b_ in range(a_, dim):
+                K[a_, b_] = K[b_, a_] = env[f"K{row['k']}_{a_ + 1}{b_ + 1}"]
+        blocks.append((tuple(row["delta"]), K / m))
+    exp = np.zeros((N * dim, N * dim))
+    diag = sum(K for _, K in blocks)
+    for i, u in enumerate(idx):
+        exp[i * dim:(i + 1) * dim, i * dim:(i + 1) * dim] = diag
+        for delta, K in blocks:
+            j = who[tuple((u[k] + delta[k]) % n[k] for k in range(dim))]
+            exp[i * dim:(i + 1) * dim, j * dim:(j + 1) * dim] = -K
+    chk.extra["lattice_record"] = {"particles": N, "neighbours_per_particle": len(blocks), "directed_interacting_pairs": N * len(blocks),
+                                   "model": rec["model"]}
+    if N * len(blocks) <= 65536:
+        raise common.MachineryError("the lattice record does not reach 2^16 directed pairs")
+    if not matrices_equal(Hm, exp):
+        bad = np.argwhere(np.abs(Hm - exp) > 1e-9 + 1e-9 * np.abs(exp) + 1e-13 * np.max(np.abs(exp)))
+        p_, q_ = (int(x) for x in bad[0]) if len(bad) else (0, 0)
+        chk.violation("matrix:blocks:lattice", dict(small, direction="B-lattice", entries_differing=int(len(bad)),
+                                                    first=[p_, q_], observed=float(Hm[p_, q_]), expected=float(exp[p_, q_]),
+                                                    particle=p_ // dim + 1, other=q_ // dim + 1))
+        return
+    chk.ok(("B-lattice", rec["model"]), nontrivial=True)
+    chk.extra["entries_compared"] = chk.extra.get("entries_compared", 0) + int(exp.size)
+
+
 # --------------------------------------------------------------------------
 def run(tier, replay=None):
     common.import_lib()
@@ -694,6 +768,11 @@ def run(tier, replay=None):
     try:
         if replay:
             case = common.load_replay(replay)["case"]
+            if case.get("direction") == "B-lattice":     # the lattice record is generated from the seed: run it again
+                check_lattice(chk, lib, tmp, random.Random(common.SEED * 31337 + 11))
+                for v in chk.violations:
+                    print("STILL VIOLATED:", v[0], json.dumps(v[1])[:600])
+                return 1 if chk.violations else 0
             if "defs" in case and "matrix" in case:
                 exp, _ = expected_matrix(case)
                 res = run_code(lib, cfg_view(case), tmp, int_eps=bool(case.get("int_eps")))
@@ -753,6 +832,7 @@ def run(tier, replay=None):
         if missing or not chk.extra.get("emitted_masses_dict_not_in_key_order"):
             raise common.MachineryError(f"MC_Hessian scope: species patterns {missing} not emitted / no mass map out of key order")
         direction_b(chk, lib, tmp, 24 if quick else 300)
+        check_lattice(chk, lib, tmp, random.Random(common.SEED * 31337 + 11))       # scale (see lattice_record)
     finally:
         shutil.rmtree(tmp, ignore_errors=True)
     return chk.finish()
